@@ -8,6 +8,7 @@ import (
 	"encoding/json"
 	"io"
 	"strings"
+	"sync/atomic"
 	"testing"
 	"time"
 
@@ -32,7 +33,8 @@ func schedScenarios() []e3.Scenario {
 		}
 		var sendErr error
 		var reply *hsms.DataMessage
-		var gen2 *sim.Conn
+		var gen2, gen1Conn *sim.Conn
+		var accepted atomic.Bool
 		out = append(out, e3.Scenario{
 			Name: name, Horizon: 30 * time.Second,
 			Setup: func(e *e3.Env) {
@@ -46,16 +48,26 @@ func schedScenarios() []e3.Scenario {
 					panic(err)
 				}
 				gen1 := e.W.Peer
-				e.Thread("sender", func() {
-					if async {
+				gen1Conn = gen1
+				accepted.Store(false)
+				if async {
+					// acceptance is observable for a fire-and-forget send: the call returned nil.
+					// Only then does the peer drop generation 1 (same thread: program order).
+					e.Thread("sender", func() {
 						sendErr = e.W.C.SendDataMessageAsync(context.Background(), 1, 3, false, secs2.A("g1-async-0"))
-						return
-					}
-					ctx, cancel := context.WithTimeout(context.Background(), 2*time.Second)
-					defer cancel()
-					reply, sendErr = e.W.C.SendDataMessage(ctx, 1, 1, true, secs2.A("g1-sync-0"))
-				})
-				e.Thread("dropper", func() { _ = gen1.Close() })
+						if sendErr == nil {
+							accepted.Store(true)
+						}
+						_ = gen1.Close()
+					})
+				} else {
+					e.Thread("sender", func() {
+						ctx, cancel := context.WithTimeout(context.Background(), 2*time.Second)
+						defer cancel()
+						reply, sendErr = e.W.C.SendDataMessage(ctx, 1, 1, true, secs2.A("g1-sync-0"))
+					})
+					e.Thread("dropper", func() { _ = gen1.Close() })
+				}
 				e.Thread("peer2", func() {
 					// wait (in virtual time) for the library's re-dial, then select the new generation
 					var p *sim.Conn
@@ -85,6 +97,21 @@ func schedScenarios() []e3.Scenario {
 				if !async && sendErr == nil {
 					e.Violate("reply-without-peer-reply", "the synchronous send returned (%v, nil) although no peer ever replied", reply)
 				}
+				// A synchronous call's acceptance is not observable from outside before it returns
+				// (a call that pins the connection after the reconnect is legitimately a
+				// generation-2 send): the sync oracle is "never transmitted on BOTH generations";
+				// the async oracle is "accepted (returned nil) before the drop => never on gen 2".
+				onGen1 := false
+				if gen1Conn != nil {
+					var pp peer.Parser
+					for _, ch := range gen1Conn.Received() {
+						for _, f := range pp.Feed(ch.Data) {
+							if f.SType == peer.SData && strings.HasPrefix(bodyToken(f), "g1-") {
+								onGen1 = true
+							}
+						}
+					}
+				}
 				for _, p := range append([]*sim.Conn{gen2}, takeAll(e.W.Net)...) {
 					if p == nil {
 						continue
@@ -92,8 +119,8 @@ func schedScenarios() []e3.Scenario {
 					var pp peer.Parser
 					for _, ch := range p.Received() {
 						for _, f := range pp.Feed(ch.Data) {
-							if f.SType == peer.SData && strings.HasPrefix(bodyToken(f), "g1-") {
-								e.Violate("stale-frame", "generation 2's socket carried %q, a message accepted for sending in generation 1 (%v)", bodyToken(f), f)
+							if f.SType == peer.SData && strings.HasPrefix(bodyToken(f), "g1-") && (onGen1 || accepted.Load()) {
+								e.Violate("stale-frame", "generation 2's socket carried %q, a message accepted for sending in generation 1 (also on generation 1's socket: %v; async accepted before the drop: %v) (%v)", bodyToken(f), onGen1, accepted.Load(), f)
 							}
 						}
 					}
